@@ -18,12 +18,14 @@ Each store is classified by where it stands: in a plain function (`StorePlain`);
 come - later in the text, or in a loop that also contains the store - (`StoreBeforeYield`: the consumer may never resume
 the generator, what was stored so far stays); or after the last `yield` (`StoreAfterLastYield`).
 
-Allowed and not counted: in `__init__`, `self.<attr> = ...` (the constructor-built tables); in `FileSystemChain.add_sys`,
+Allowed and not counted: in `__init__`, stores into the object under construction (`self.<attr> = ...`,
+`self.<attr>[k] = ...`, `self.<attr>.append(...)`: the constructor-built tables); in `FileSystemChain.add_sys`,
 mutating calls on `self.systems` (the one declared mutator of the chain).  Everything else ends up in the census, grouped
 per class into walk methods and lookup methods (rocq/SM/FsState.v: `fs_census`); the check asks for every group to be
 empty.  The census never fails on an unknown statement shape (it does not need to understand the control flow), so it is
 still produced when translate/c19_walk.py fails closed on a function it cannot classify; it fails closed itself only on
-`exec` / `eval` / `globals()` / `locals()` / `vars()` / `__dict__` / `object.__setattr__`, which could hide a store.
+`exec` / `eval` / `globals()` / `locals()` / `object.__setattr__`, which could hide a store (`self.__dict__` and
+`vars(self)` are parts of `self`).
 """
 from __future__ import annotations
 
@@ -37,7 +39,7 @@ MUTATORS = {'append', 'extend', 'insert', 'pop', 'remove', 'clear', 'add', 'disc
             'cache_clear'}
 # calls on a shared object whose result is (part of) that object
 PART_OF = {'get', 'setdefault', 'pop', 'popitem', 'values', 'items', 'keys', '__getitem__'}
-HIDING = {'exec', 'eval', 'globals', 'locals', 'vars'}
+HIDING = {'exec', 'eval', 'globals', 'locals'}
 WALK_METHODS = ('walk_folder', 'walk_folder_repeat', '__iter__')
 CLASSES = {'FileSystemChain': 'chain', 'VirtualFileSystem': 'virtual', 'RawFileSystem': 'raw', 'ZipFileSystem': 'zip',
            'VPKFileSystem': 'vpk'}
@@ -78,8 +80,9 @@ def _target_names(t):
 
 
 class _Fn:
-    def __init__(self, fn, where: str, module_names: set, class_names: set) -> None:
+    def __init__(self, fn, where: str, module_names: set, class_names: set, module_data: set = frozenset()) -> None:
         self.fn, self.where = fn, where
+        self.module_data = set(module_data) | set(class_names)
         args = fn.args
         allargs = args.posonlyargs + args.args + args.kwonlyargs
         self.shared: set = set(module_names) | set(class_names)
@@ -119,7 +122,7 @@ class _Fn:
             f = e.func
             if isinstance(f, ast.Attribute) and f.attr in PART_OF and self.rooted(f.value):
                 return True
-            if isinstance(f, ast.Name) and f.id in ('iter', 'reversed', 'enumerate', 'zip', 'list', 'tuple', 'sorted', 'cast', 'next', 'getattr'):
+            if isinstance(f, ast.Name) and f.id in ('iter', 'reversed', 'enumerate', 'zip', 'list', 'tuple', 'sorted', 'cast', 'next', 'getattr', 'vars'):
                 # the elements are still the shared objects' parts
                 return any(self.rooted(a) for a in e.args)
             return False
@@ -164,7 +167,7 @@ class _Fn:
         out = []
         for d in self.fn.decorator_list:
             txt = ast.unparse(d.func if isinstance(d, ast.Call) else d)
-            if 'cache' in txt.lower() or 'memo' in txt.lower():
+            if ('cache' in txt.lower() or 'memo' in txt.lower()) and not self._pure_function():
                 out.append((d, f'memoising decorator @{txt}'))
         for n in _own_nodes(self.fn):
             if isinstance(n, ast.Call):
@@ -176,8 +179,6 @@ class _Fn:
                     out.append((n, ast.unparse(n)[:70]))
                 elif fname in ('setattr', 'delattr') and n.args and self.rooted(n.args[0]):
                     out.append((n, ast.unparse(n)[:70]))
-            elif isinstance(n, ast.Attribute) and n.attr == '__dict__':
-                raise TranslateError(f'{self.where}: line {n.lineno}: {ast.unparse(n)[:60]} could hide a store')
             targets = []
             if isinstance(n, ast.Assign):
                 targets = n.targets
@@ -198,6 +199,16 @@ class _Fn:
                     elif isinstance(leaf, ast.Name) and leaf.id in self.declared:
                         out.append((leaf, f'{leaf.id} = ... (declared global/nonlocal)'))
         return out
+
+    def _pure_function(self) -> bool:
+        """A module-level function that reads nothing but its parameters, its own locals and imported modules / other
+        functions: memoising it cannot be observed (the arguments of the functions here are strings)."""
+        if self.selfname is not None or self.declared:
+            return False
+        for n in _own_nodes(self.fn):
+            if isinstance(n, ast.Name) and isinstance(n.ctx, ast.Load) and n.id in self.module_data and n.id in self.shared:
+                return False
+        return True
 
     @staticmethod
     def _leaves(t):
@@ -234,6 +245,19 @@ class _Fn:
         return sorted(set(res), key=lambda r: (r[1], r[2]))
 
 
+def _module_data(tree: ast.Module) -> set:
+    """Names bound by assignments at module level (constants, tables, instances) - not imports, functions, classes."""
+    out = set()
+    for st in tree.body:
+        for sub in ([st] if not isinstance(st, (ast.If, ast.Try)) else list(ast.walk(st))):
+            if isinstance(sub, ast.Assign):
+                for t in sub.targets:
+                    out |= set(_target_names(t))
+            elif isinstance(sub, (ast.AnnAssign, ast.AugAssign)):
+                out |= set(_target_names(sub.target))
+    return out
+
+
 def _module_level(tree: ast.Module):
     names, classes = set(), set()
     for st in tree.body:
@@ -258,10 +282,20 @@ def _no_allow(node, what, f) -> bool:
     return False
 
 
+def _root_name(node):
+    if isinstance(node, ast.Call):
+        node = node.func.value if isinstance(node.func, ast.Attribute) else (node.args[0] if node.args else node)
+    while isinstance(node, (ast.Attribute, ast.Subscript, ast.Starred)):
+        node = node.value
+    return node.id if isinstance(node, ast.Name) else None
+
+
 def _allow_init(node, what, f) -> bool:
-    # self.<attr> = ...  directly on the object under construction
-    return (isinstance(node, ast.Attribute) and isinstance(node.value, ast.Name) and node.value.id == f.selfname
-            and what.endswith('= ...'))
+    # the constructor fills the object under construction: self.<attr> = ..., self.<attr>[k] = ..., self.<attr>.append(...),
+    # also through a local name for one of its new attributes; stores into classes, module-level objects, globals and
+    # mutable defaults are not the constructor's business
+    root = _root_name(node)
+    return root is not None and (root == f.selfname or (root in f.aliases and root not in f.shared))
 
 
 def _allow_add_sys(node, what, f) -> bool:
@@ -321,7 +355,7 @@ def translate() -> tuple[str, dict]:
     for st in tree.body:
         if isinstance(st, (ast.FunctionDef, ast.AsyncFunctionDef)):
             n_functions += 1
-            found = _Fn(st, st.name, mnames, cnames).positions(_no_allow)
+            found = _Fn(st, st.name, mnames, cnames, _module_data(tree)).positions(_no_allow)
             record(st.name, found)
             helpers += [p for p, _, _ in found]
     # every backend class must still be a subclass of FileSystem only (a mixin could bring its own state)
@@ -352,7 +386,7 @@ def translate() -> tuple[str, dict]:
         if fname not in vfuncs:
             raise TranslateError(f'vpk.py: function {fname} not found')
         n_functions += 1
-        found = _Fn(vfuncs[fname], fname, vnames, vcnames).positions(_no_allow)
+        found = _Fn(vfuncs[fname], fname, vnames, vcnames, _module_data(vtree)).positions(_no_allow)
         record(f'vpk.py {fname}', found)
         reader += [p for p, _, _ in found]
 
